@@ -330,6 +330,9 @@ def c17(run):
             else:
                 run.tool_error("Apalache failed: %s" % r.get("out"))
     run.extra["symbolic_obligations_64bit"] = {"checked": ob, "discharged": done}
+    # the arithmetic as the collections use it: on every observed table of the generated behaviours an EMPTY bucket exists, the
+    # growth budget never exceeds the EMPTY bytes, and every live block has the alignment and room the layout promises
+    run.traces_parallel([corpus_job(run, 16)] + entry_goal_jobs(run, ("map",), 16) + ([corpus_job(run, 8)] if not quick else []), workers=3)
     layout.validate_recorded(run, "sse2", 22 if quick else 32, 64 if quick else 4096, 80 if quick else 0, release=not quick)
     if not quick:
         layout.validate_recorded(run, "generic", 26, 512, 0, release=True)
